@@ -96,6 +96,8 @@ CONSTANTS N,          \* classes are 1..N
           MaxRoots,   \* longest root list
           DupRoots,   \* TRUE: the caller may pass a class twice (kernel argument + extra_classes)
           ApiAll,     \* TRUE: only cases where every class in reach has an API (keeps configurations with long lists small)
+          Shape,      \* "any", or only "acyclic" / only "cyclic" (a cycle in reach of the roots) graphs: most graphs are cyclic,
+                      \* the configurations spend their budget separately on the two halves of the contract
           SplitModes, \* subset of {"inner","decl","half"}: which part of a dependency list comes from _get_inner_types()
                       \* and which from _depends_on (the code concatenates them; the split cannot change the result)
           Fixed,      \* see NOTE ON THE FIX
@@ -134,9 +136,10 @@ RootLists == {s \in UNION {[1..len -> Classes] : len \in 1..MaxRoots} :
 SumSeq(s) == LET RECURSIVE Sm(_)
                  Sm(x) == IF x = 0 THEN 0 ELSE x * s[x] + Sm(x - 1)
              IN Sm(Len(s))
-PartOf(d, a, r) == LET RECURSIVE Pc(_)
-                       Pc(c) == IF c = 0 THEN 0 ELSE (IF a[c] THEN c ELSE 0) + (c + 1) * SumSeq(d[c]) + Len(d[c]) + Pc(c - 1)
-                   IN (Pc(N) + 3 * SumSeq(r) + Len(r)) % NParts
+PartOf(d) == LET RECURSIVE Pc(_)
+                 Pc(c) == IF c = 0 THEN 0 ELSE (c + 1) * SumSeq(d[c]) + Len(d[c]) + Pc(c - 1)
+             IN Pc(N) % NParts
+WholeAcyclic(d) == \A c \in Classes : c \notin Below(d, c)
 
 St0 == [pc |-> "start", classes |-> <<>>, cbn |-> <<>>, deps |-> DEmpty, i |-> 0, cdeps |-> <<>>, j |-> 0,
         names |-> <<>>, graph |-> DEmpty, np |-> <<>>, k |-> 0, m |-> 0, result |-> <<>>, ri |-> 0, ci |-> 0,
@@ -147,11 +150,13 @@ ASSUME N \in 1..4
 DL(c) == IF c <= N THEN DepLists(c) ELSE {<<>>}
 Init ==
   /\ \E d1 \in DL(1) : \E d2 \in DL(2) : \E d3 \in DL(3) : \E d4 \in DL(4) :
-     \E r \in RootLists : \E a \in [Classes -> BOOLEAN] : \E sm \in SplitModes :
      LET d == [c \in Classes |-> <<d1, d2, d3, d4>>[c]] IN
-        /\ PartOf(d, a, r) = Part
-        /\ ApiAll => \A c \in Needed(d, r) : a[c]
+     /\ PartOf(d) = Part
+     /\ (CASE Shape = "acyclic" -> WholeAcyclic(d) [] Shape = "cyclic" -> ~WholeAcyclic(d) [] OTHER -> TRUE) = TRUE   \* "= TRUE": evaluate, do not
+     /\ \E r \in RootLists : \E a \in [Classes -> BOOLEAN] : \E sm \in SplitModes :
+        /\ (IF Shape = "cyclic" THEN Cyclic(d, r) ELSE TRUE) = TRUE                                                    \* branch on the witnesses
         /\ \A c \in Classes \ Needed(d, r) : d[c] = <<>> /\ ~a[c]     \* classes out of reach are not part of the case
+        /\ IF ApiAll THEN \A c \in Needed(d, r) : a[c] ELSE TRUE
         /\ LET plain(c) == ~a[c] /\ d[c] = <<>>         \* a scalar: neither _get_inner_types nor _depends_on
            IN case = [deps |-> d, api |-> a, roots |-> r, sm |-> sm,
                       nin |-> [c \in Classes |-> CASE sm = "inner" -> Len(d[c]) [] sm = "decl" -> 0
